@@ -6123,6 +6123,13 @@ func ruleWatchStartsBeforeGeneratingAndAlwaysGenerates(c *core.Ctx) {
 						body = fd.Body
 					}
 				}
+			case *ast.SelectorExpr:
+				// a method value (`regenerator.regenerate`)
+				if fn, ok := info.Uses[a.Sel].(*types.Func); ok {
+					if fd := c.Decl(fn); fd != nil {
+						body = fd.Body
+					}
+				}
 			}
 			if body == nil {
 				return true
@@ -9590,5 +9597,358 @@ func ruleNilableFieldsBeforeAbortingDefault(c *core.Ctx) {
 				fmt.Sprintf("`%s` (%s.%s) can be nil and the type switch over it has an aborting default, no `case nil` and no nil test in front of it", types.ExprString(subj), k.typ, k.field))
 			return true
 		})
+	}
+}
+
+// ruleSameNodeRecursionDiscriminated (RC1): recursion in the YAML front end terminates because every recursive call
+// descends to a child node — except where a function hands ITS OWN node to a function that can hand the same node
+// back. Such a cycle ends only if the conditions along it contradict one another on that one node. The conditions
+// are conjunctions of `node.F ==/!= constant` atoms collected from the enclosing switch cases, if-branches and the
+// early exits in front of each call; a cycle whose atoms are jointly satisfiable is an unbounded recursion for the
+// document that satisfies them (a scalar tagged `!!seq` was one: the tag sent it to UnmarshalTypeCases, whose test
+// of the node KIND sent it back).
+func ruleSameNodeRecursionDiscriminated(c *core.Ctx) {
+	const rule = "RC1"
+	c.Rule(rule, "pkg/dsl: a cycle of calls that pass one *yaml.Node unchanged carries contradictory conditions on that node (Kind/Tag atoms from the enclosing cases, branches and early exits), so it cannot be taken twice", 1)
+	p := c.Pkg("pkg/dsl")
+	if p == nil {
+		c.Undecided(rule, "anchor/pkg/dsl", 0, "package not loaded")
+		return
+	}
+	info := p.TypesInfo
+	isNode := func(t types.Type) bool {
+		pt, ok := t.(*types.Pointer)
+		if !ok {
+			return false
+		}
+		n, ok := pt.Elem().(*types.Named)
+		return ok && n.Obj().Name() == "Node" && n.Obj().Pkg() != nil && strings.HasSuffix(n.Obj().Pkg().Path(), "yaml.v3")
+	}
+	type atom struct {
+		field, val string
+		eq         bool
+	}
+	type edge struct {
+		from, to *types.Func
+		atoms    []atom
+		pos      token.Pos
+	}
+	// atoms of a condition over node parameter obj; neg: the condition is known false
+	var condAtoms func(e ast.Expr, obj types.Object, neg bool) []atom
+	condAtoms = func(e ast.Expr, obj types.Object, neg bool) []atom {
+		e = ast.Unparen(e)
+		switch x := e.(type) {
+		case *ast.UnaryExpr:
+			if x.Op == token.NOT {
+				return condAtoms(x.X, obj, !neg)
+			}
+		case *ast.BinaryExpr:
+			switch x.Op {
+			case token.LAND:
+				if !neg {
+					return append(condAtoms(x.X, obj, false), condAtoms(x.Y, obj, false)...)
+				}
+			case token.LOR:
+				if neg {
+					return append(condAtoms(x.X, obj, true), condAtoms(x.Y, obj, true)...)
+				}
+			case token.EQL, token.NEQ:
+				l, r := ast.Unparen(x.X), ast.Unparen(x.Y)
+				if _, ok := l.(*ast.SelectorExpr); !ok {
+					l, r = r, l
+				}
+				se, ok := l.(*ast.SelectorExpr)
+				if !ok || identObj(info, se.X) != obj {
+					return nil
+				}
+				tv, ok := info.Types[r]
+				if !ok || tv.Value == nil {
+					return nil
+				}
+				return []atom{{se.Sel.Name, tv.Value.ExactString(), (x.Op == token.EQL) != neg}}
+			}
+		}
+		return nil
+	}
+	var edges []edge
+	funcs := 0
+	for _, d := range c.AllDecls() {
+		if c.DeclPkg(d) != p || d.Body == nil {
+			continue
+		}
+		fn, _ := info.Defs[d.Name].(*types.Func)
+		if fn == nil {
+			continue
+		}
+		var params []types.Object
+		for _, f := range d.Type.Params.List {
+			for _, n := range f.Names {
+				if o := info.Defs[n]; o != nil && isNode(o.Type()) {
+					params = append(params, o)
+				}
+			}
+		}
+		if len(params) == 0 {
+			continue
+		}
+		funcs++
+		// is the parameter ever re-assigned? then it no longer names the caller's node
+		reassigned := map[types.Object]bool{}
+		ast.Inspect(d.Body, func(n ast.Node) bool {
+			if as, ok := n.(*ast.AssignStmt); ok {
+				for _, l := range as.Lhs {
+					if o := identObj(info, l); o != nil {
+						reassigned[o] = true
+					}
+				}
+			}
+			return true
+		})
+		var walk func(list []ast.Stmt, ctx []atom)
+		var visit func(s ast.Stmt, ctx []atom)
+		scanCalls := func(n ast.Node, ctx []atom) {
+			ast.Inspect(n, func(m ast.Node) bool {
+				switch m.(type) {
+				case *ast.FuncLit:
+					return false
+				}
+				ce, ok := m.(*ast.CallExpr)
+				if !ok {
+					return true
+				}
+				var callee *types.Func
+				var passed types.Object
+				if f := core.Callee(info, ce); f != nil && core.InModule(f) {
+					for _, a := range ce.Args {
+						if o := identObj(info, a); o != nil && !reassigned[o] {
+							for _, po := range params {
+								if po == o {
+									callee, passed = f, o
+								}
+							}
+						}
+					}
+				} else if se, ok := ce.Fun.(*ast.SelectorExpr); ok && strings.HasPrefix(se.Sel.Name, "Decode") && len(ce.Args) >= 1 {
+					// node.Decode(x) runs x's UnmarshalYAML on the same node
+					if o := identObj(info, se.X); o != nil && !reassigned[o] {
+						for _, po := range params {
+							if po == o {
+								if tv, ok := info.Types[ce.Args[0]]; ok {
+									ms := types.NewMethodSet(tv.Type)
+									for i := 0; i < ms.Len(); i++ {
+										if m := ms.At(i).Obj(); m.Name() == "UnmarshalYAML" {
+											if f, ok := m.(*types.Func); ok && core.InModule(f) {
+												callee, passed = f, o
+											}
+										}
+									}
+								}
+							}
+						}
+					}
+				}
+				if callee == nil {
+					return true
+				}
+				var mine []atom
+				for _, a := range ctx {
+					mine = append(mine, a)
+				}
+				_ = passed
+				edges = append(edges, edge{fn, callee, mine, ce.Pos()})
+				return true
+			})
+		}
+		visit = func(s ast.Stmt, ctx []atom) {
+			switch x := s.(type) {
+			case *ast.BlockStmt:
+				walk(x.List, ctx)
+			case *ast.IfStmt:
+				if x.Init != nil {
+					scanCalls(x.Init, ctx)
+				}
+				scanCalls(x.Cond, ctx)
+				var pos, neg []atom
+				for _, po := range params {
+					pos = append(pos, condAtoms(x.Cond, po, false)...)
+					neg = append(neg, condAtoms(x.Cond, po, true)...)
+				}
+				walk(x.Body.List, append(append([]atom{}, ctx...), pos...))
+				if x.Else != nil {
+					visit(x.Else, append(append([]atom{}, ctx...), neg...))
+				}
+			case *ast.SwitchStmt:
+				if x.Init != nil {
+					scanCalls(x.Init, ctx)
+				}
+				var field string
+				if se, ok := ast.Unparen(x.Tag).(*ast.SelectorExpr); ok && x.Tag != nil {
+					for _, po := range params {
+						if identObj(info, se.X) == po {
+							field = se.Sel.Name
+						}
+					}
+				}
+				var all []string
+				for _, cl := range x.Body.List {
+					for _, v := range cl.(*ast.CaseClause).List {
+						if tv, ok := info.Types[v]; ok && tv.Value != nil {
+							all = append(all, tv.Value.ExactString())
+						}
+					}
+				}
+				for _, cl := range x.Body.List {
+					cc := cl.(*ast.CaseClause)
+					inner := append([]atom{}, ctx...)
+					if field != "" {
+						if cc.List == nil {
+							for _, v := range all {
+								inner = append(inner, atom{field, v, false})
+							}
+						} else if len(cc.List) == 1 {
+							if tv, ok := info.Types[cc.List[0]]; ok && tv.Value != nil {
+								inner = append(inner, atom{field, tv.Value.ExactString(), true})
+							}
+						}
+					} else if x.Tag == nil && len(cc.List) == 1 {
+						for _, po := range params {
+							inner = append(inner, condAtoms(cc.List[0], po, false)...)
+						}
+					}
+					walk(cc.Body, inner)
+				}
+			case *ast.ForStmt:
+				walk(x.Body.List, ctx)
+			case *ast.RangeStmt:
+				scanCalls(x.X, ctx)
+				walk(x.Body.List, ctx)
+			case *ast.TypeSwitchStmt:
+				for _, cl := range x.Body.List {
+					walk(cl.(*ast.CaseClause).Body, ctx)
+				}
+			case *ast.LabeledStmt:
+				visit(x.Stmt, ctx)
+			default:
+				scanCalls(s, ctx)
+			}
+		}
+		walk = func(list []ast.Stmt, ctx []atom) {
+			cur := append([]atom{}, ctx...)
+			for _, s := range list {
+				visit(s, cur)
+				// an early exit: what follows runs only when its condition was false
+				if is, ok := s.(*ast.IfStmt); ok && is.Else == nil && stmtLeaves(is.Body) {
+					for _, po := range params {
+						cur = append(cur, condAtoms(is.Cond, po, true)...)
+					}
+				}
+			}
+		}
+		walk(d.Body.List, nil)
+	}
+	c.Check(funcs >= 15, rule, "anchor/functions taking a *yaml.Node", p.Syntax[0].Pos(), fmt.Sprintf("%d functions scanned, %d calls pass the function's own node on", funcs, len(edges)),
+		fmt.Sprintf("only %d functions of pkg/dsl take a *yaml.Node: the rule no longer sees the front end", funcs))
+	sat := func(as []atom) bool {
+		eqs := map[string]map[string]bool{}
+		for _, a := range as {
+			if a.eq {
+				if eqs[a.field] == nil {
+					eqs[a.field] = map[string]bool{}
+				}
+				eqs[a.field][a.val] = true
+			}
+		}
+		for f, vs := range eqs {
+			if len(vs) > 1 {
+				return false
+			}
+			_ = f
+		}
+		for _, a := range as {
+			if !a.eq && eqs[a.field][a.val] {
+				return false
+			}
+		}
+		return true
+	}
+	str := func(as []atom) string {
+		var parts []string
+		seen := map[string]bool{}
+		for _, a := range as {
+			op := "!="
+			if a.eq {
+				op = "=="
+			}
+			s := fmt.Sprintf("%s%s%s", a.field, op, a.val)
+			if !seen[s] {
+				seen[s] = true
+				parts = append(parts, s)
+			}
+		}
+		if len(parts) == 0 {
+			return "(no condition)"
+		}
+		return strings.Join(parts, " && ")
+	}
+	out := map[*types.Func][]int{}
+	for i, e := range edges {
+		out[e.from] = append(out[e.from], i)
+	}
+	// enumerate simple cycles of at most four same-node calls, each reported once from its smallest edge
+	reported := map[string]bool{}
+	var dfs func(start *types.Func, at *types.Func, path []int)
+	dfs = func(start, at *types.Func, path []int) {
+		if len(path) > 4 {
+			return
+		}
+		for _, ei := range out[at] {
+			e := edges[ei]
+			dup := false
+			for _, pi := range path {
+				if pi == ei || (edges[pi].from == e.to && e.to != start) {
+					dup = true
+				}
+			}
+			if dup {
+				continue
+			}
+			np := append(append([]int{}, path...), ei)
+			if e.to == start {
+				min := np[0]
+				for _, x := range np {
+					if x < min {
+						min = x
+					}
+				}
+				if min != np[0] {
+					continue
+				}
+				var names []string
+				var all []atom
+				for _, x := range np {
+					names = append(names, edges[x].from.Name())
+					all = append(all, edges[x].atoms...)
+				}
+				key := strings.Join(names, "->") + "->" + start.Name()
+				n := 1
+				for reported[key] {
+					n++
+					key = fmt.Sprintf("%s->%s#%d", strings.Join(names, "->"), start.Name(), n)
+				}
+				reported[key] = true
+				c.Check(!sat(all), rule, key, edges[np[0]].pos, "the conditions along the cycle contradict one another: "+str(all),
+					fmt.Sprintf("the same node goes round this cycle whenever %s — nothing on the way excludes it, so such a document recurses until the stack overflows", str(all)))
+				continue
+			}
+			dfs(start, e.to, np)
+		}
+	}
+	var starts []*types.Func
+	for f := range out {
+		starts = append(starts, f)
+	}
+	sort.Slice(starts, func(i, j int) bool { return starts[i].FullName() < starts[j].FullName() })
+	for _, f := range starts {
+		dfs(f, f, nil)
 	}
 }
